@@ -31,7 +31,9 @@ MANIFEST = {
             'are compared with breakpoints tabulated from their '
             'documentation (defaults included); Env._at is checked against '
             'the laws of the statement at breakpoints, inside segments and '
-            'after the end; EnvGen.kr/ar inside a SynthDef is decoded from '
+            'after the end (also with an offset, which moves every '
+            'breakpoint); the encoding of an object is taken again after '
+            'its other formats and evaluation were used; EnvGen.kr/ar inside a SynthDef is decoded from '
             'the definition bytes and its inputs compared with [gate, '
             'levelScale, levelBias, timeScale, doneAction] ++ the array.',
     'note': 'Trusted: the reference encoder and shape-number table '
